@@ -1,8 +1,117 @@
 package checks
 
-import "fmt"
+import (
+	"encoding/json"
+	"fmt"
+	"os"
+	"path/filepath"
+	"sort"
+	"time"
+)
 
+// Violation is a natively confirmed counterexample.
+type Violation struct {
+	Sig    string
+	Detail string
+	Replay []NativeReq
+}
+
+type checkFn func(c *Ctx, ev *Evidence) ([]Violation, error)
+
+var registry = map[string]checkFn{
+	"C19": runC19,
+}
+
+// Main implements `bmsym check <id> <quick|thorough>`.
 func Main(args []string) int {
-	fmt.Println("not implemented")
-	return 2
+	if len(args) < 3 || args[0] != "check" {
+		fmt.Fprintln(os.Stderr, "usage: bmsym check <id> <quick|thorough>")
+		return 2
+	}
+	id, tier := args[1], args[2]
+	if t := os.Getenv("VERIF_TIER"); t == "quick" || t == "thorough" {
+		tier = t
+	}
+	verif := os.Getenv("VERIF_DIR")
+	if verif == "" {
+		verif = "/verif"
+	}
+	repo := os.Getenv("VERIF_REPO")
+	if repo == "" {
+		repo = "/repo"
+	}
+	fn, ok := registry[id]
+	if !ok {
+		fmt.Fprintf(os.Stderr, "no check for %s\n", id)
+		return 2
+	}
+	start := time.Now()
+	c := &Ctx{Repo: repo, Harness: filepath.Join(verif, "harness"), VerifDir: verif, Tier: tier, Start: start}
+	c.Log = func(f string, a ...interface{}) {
+		fmt.Fprintf(os.Stderr, "[%6.1fs] "+f+"\n", append([]interface{}{time.Since(start).Seconds()}, a...)...)
+	}
+	ev := NewEvidence(id, tier)
+	evPath := filepath.Join(verif, "evidence", id+".json")
+	os.Remove(evPath)
+	fail := func(reason string) int {
+		ev.Inconclusive(reason)
+		ev.Write(evPath, start, 0)
+		fmt.Printf("INCONCLUSIVE property=%s reason=%s\n", id, reason)
+		return 2
+	}
+	if err := c.Load(); err != nil {
+		return fail("load: " + err.Error())
+	}
+	ev.Bound("source_hash", SourceHash(repo))
+	viols, err := fn(c, ev)
+	if err != nil {
+		return fail(err.Error())
+	}
+	findings, err := LoadFindings(filepath.Join(verif, "KNOWN_FINDINGS.txt"))
+	if err != nil {
+		return fail("known findings: " + err.Error())
+	}
+	sort.Slice(viols, func(i, j int) bool { return viols[i].Sig < viols[j].Sig })
+	exit := 0
+	newV := 0
+	seenKnown := map[string]bool{}
+	for i, v := range viols {
+		if f := MatchFinding(findings, id, v.Sig); f != nil {
+			if !seenKnown[v.Sig] {
+				fmt.Printf("KNOWN-FINDING: property=%s %s :: %s\n", id, v.Sig, v.Detail)
+				ev.Known(v.Sig + " :: " + v.Detail)
+				seenKnown[v.Sig] = true
+			}
+			continue
+		}
+		newV++
+		dir := filepath.Join(verif, "out", "replay", fmt.Sprintf("%s-%d", id, i))
+		os.MkdirAll(dir, 0o755)
+		b, _ := json.MarshalIndent(map[string]interface{}{"property": id, "signature": v.Sig, "detail": v.Detail, "native_requests": v.Replay}, "", " ")
+		os.WriteFile(filepath.Join(dir, "violation.json"), b, 0o644)
+		if len(v.Replay) > 0 {
+			// leave a runnable replay (in.json + replay.sh) behind
+			RunNative(repo, verif, v.Replay, dir)
+		}
+		fmt.Printf("VIOLATION property=%s replay=%s\n", id, dir)
+		fmt.Printf("  %s :: %s\n", v.Sig, v.Detail)
+		exit = 1
+	}
+	ev.mu.Lock()
+	incon := append([]string(nil), ev.incon...)
+	ev.mu.Unlock()
+	if err := ev.Write(evPath, start, newV); err != nil {
+		fmt.Fprintln(os.Stderr, "evidence:", err)
+		return 2
+	}
+	if exit == 0 && len(incon) > 0 {
+		for _, s := range incon {
+			fmt.Printf("INCONCLUSIVE property=%s reason=%s\n", id, s)
+		}
+		return 2
+	}
+	if exit == 0 {
+		fmt.Printf("OK property=%s tier=%s wall=%.1fs\n", id, tier, time.Since(start).Seconds())
+	}
+	return exit
 }
